@@ -13,6 +13,7 @@ sys.path.insert(0, os.path.dirname(os.path.abspath(__file__)))
 sys.path.insert(0, os.path.join(os.path.dirname(os.path.abspath(__file__)), '..', 'tools'))
 import vlib
 import _minicpp as mc
+mc.INLINE_LAMBDAS = False     # `resolve` and `resolve_list` are local lambdas that this translator reads as such
 
 REPO = os.environ.get('VERIF_REPO', '/repo')
 SRC = os.path.join(REPO, 'include/yorel/yomm2/detail/compiler.hpp')
